@@ -168,9 +168,9 @@ class SigmaContainsModifier(
                 val += SpecialChars.WILDCARD_MULTI
         elif isinstance(val, SigmaRegularExpression):
             regexp_str = str(val.regexp)
-            if regexp_str[:2] != ".*" and regexp_str[0] != "^":
+            if regexp_str[:2] != ".*" and regexp_str[:1] != "^":
                 val.regexp = SigmaString(".") + SpecialChars.WILDCARD_MULTI + val.regexp
-            if regexp_str[-2:] != ".*" and regexp_str[-1] != "$":
+            if regexp_str[-2:] != ".*" and regexp_str[-1:] != "$":
                 val.regexp += SigmaString(".") + SpecialChars.WILDCARD_MULTI
             val.compile()
         elif isinstance(val, SigmaFieldReference):
@@ -195,7 +195,7 @@ class SigmaStartswithModifier(
                 val += SpecialChars.WILDCARD_MULTI
         elif isinstance(val, SigmaRegularExpression):
             regexp_str = str(val.regexp)
-            if regexp_str[-2:] != ".*" and regexp_str[-1] != "$":
+            if regexp_str[-2:] != ".*" and regexp_str[-1:] != "$":
                 val.regexp += SigmaString(".") + SpecialChars.WILDCARD_MULTI
             val.compile()
         elif isinstance(val, SigmaFieldReference):
@@ -219,7 +219,7 @@ class SigmaEndswithModifier(
                 val = SpecialChars.WILDCARD_MULTI + val
         elif isinstance(val, SigmaRegularExpression):
             regexp_str = str(val.regexp)
-            if regexp_str[:2] != ".*" and regexp_str[0] != "^":
+            if regexp_str[:2] != ".*" and regexp_str[:1] != "^":
                 val.regexp = SigmaString(".") + SpecialChars.WILDCARD_MULTI + val.regexp
             val.compile()
         elif isinstance(val, SigmaFieldReference):
